@@ -204,7 +204,20 @@ impl Context {
         let state = self.states.pop().expect("States underflow");
         let removed_from_rc = self.decrease_ref_count(state.memory_block_index);
         if removed_from_rc {
-            self.memory_blocks.remove(state.memory_block_index);
+            let removed = state.memory_block_index;
+            self.memory_blocks.remove(removed);
+            // the blocks after the removed one (blocks of STATIC subprograms
+            // created further down the call chain) move down by one
+            for s in self.states.iter_mut() {
+                if s.memory_block_index > removed {
+                    s.memory_block_index -= 1;
+                }
+            }
+            for index in self.static_memory_blocks.values_mut() {
+                if *index > removed {
+                    *index -= 1;
+                }
+            }
         }
         state
     }
